@@ -1234,6 +1234,30 @@ def run(index, rep, tier):
         rep.floor("R20.13", "int() conversions of tokens in the NEXUS reader", 4, nint_)
         rep.floor("R20.13", "range() steps taken from the input", 1, nstep)
 
+    # ---- R20.14 dividing by a number from the document
+    with rep.section("R20.14"):
+        rep.rule("R20.14", "dividing by a number from the document cannot raise ZeroDivisionError: a division whose divisor was converted from input text sits in a try that catches ZeroDivisionError (or is preceded by a test of the divisor)")
+        ndiv = 0
+        for f in sm.fns:
+            pm = None
+            for b in walk_no_nested(f.node):
+                if not (isinstance(b, ast.BinOp) and isinstance(b.op, (ast.Div, ast.FloorDiv, ast.Mod)) and isinstance(b.right, ast.Name)):
+                    continue
+                dv = b.right.id
+                from_input = any(isinstance(a, ast.Assign) and norm(a.targets[0]) == dv and isinstance(a.value, ast.Call) and isinstance(a.value.func, ast.Name) and a.value.func.id in ("float", "int") for a in walk_no_nested(f.node))
+                if not from_input:
+                    continue
+                ndiv += 1
+                pm = pm or parent_map(f.node)
+                ok = _in_try_catching(pm, b, ("ZeroDivisionError", "ArithmeticError", "Exception", None))
+                if not ok:
+                    g = cfg_of(f)
+                    nd = node_of_ast(g, b)
+                    ok = nd is not None and g.dominated_by(nd, lambda x: x.kind == "test" and any(isinstance(z, ast.Name) and z.id == dv for z in ast.walk(x.ast)), follow_exc=False)
+                rep.check(ok, "R20.14", f.qualname, "division by a number read from the document without a ZeroDivisionError handler", fn_where(f, b), "%s: `%s` is protected" % (f.name, norm(b)[:40]),
+                          "%s computes `%s` where the divisor was converted from input text, inside a handler that does not cover ZeroDivisionError: a tree weight comment `[&W 1/0]` makes the reader fail with that internal error instead of the invalid-value parse error written for malformed weights" % (f.qualname, norm(b)[:40]))
+        rep.floor("R20.14", "divisions by numbers read from the document", 1, ndiv)
+
 
 def _branch_calls_raiser(cfg, n):
     for lab, t in n.succ:
